@@ -74,3 +74,12 @@ func init() {
 		}})
 	}
 }
+
+func init() {
+	if os.Getenv("DMVERIF_ROLES") != "" {
+		register(&propSpec{id: "DBG", run: func(c *Ctx) {
+			n := checkBuilderArgumentRoles(c, "roles", "pkg/core", "pkg/fuse", "pkg/wal", "pkg/web", "cmd/datamon/cmd", "pkg/model")
+			fmt.Println("sites:", n)
+		}})
+	}
+}
